@@ -121,8 +121,21 @@ func bases(thorough bool) []string {
 			}
 		}
 	}
+	// character sweep: every alphanumeric character and the hyphen in the positions of prerelease and
+	// build identifiers that parsing and trimming code looks at (first, last, alone, before ".0")
+	for _, c := range alnum + "-" {
+		ch := string(c)
+		for _, p := range []string{"-" + ch, "-a" + ch, "-" + ch + "a", "-a." + ch, "-" + ch + ".0", "-" + ch + "0", "-a." + ch + "0"} {
+			if semverref.Parse("v1.2.3" + p).Valid {
+				out = append(out, "v1.2.3"+p, "v2.0.0"+p+"+incompatible")
+			}
+		}
+		out = append(out, "v1.2.3+"+ch, "v1.2.3+a"+ch, "v1.2.3-pre+"+ch+".0")
+	}
 	return out
 }
+
+const alnum = "0123456789ABCDEFGHIJKLMNOPQRSTUVWXYZabcdefghijklmnopqrstuvwxyz"
 
 func times() []time.Time {
 	z := func(h int) *time.Location { return time.FixedZone("", h*3600) }
@@ -147,6 +160,9 @@ func times() []time.Time {
 		time.Date(9999, 12, 31, 9, 59, 59, 0, z(-14)), // 9999-12-31T23:59:59Z
 		time.Date(9999, 12, 31, 23, 59, 59, 999999999, time.UTC),
 		time.Date(9999, 12, 31, 23, 59, 58, 0, time.UTC),
+		// zones whose offset is not a whole number of hours
+		time.Date(2019, 1, 1, 5, 29, 59, 0, time.FixedZone("", 5*3600+1800)),
+		time.Date(2019, 6, 30, 20, 15, 30, 999999999, time.FixedZone("", -(9*3600+1800+7))),
 	}
 	return ts
 }
@@ -229,6 +245,31 @@ func Run(r *fw.Run) {
 		r.Merge(l)
 	})
 	for _, s := range [][2]string{{"v1.2.3", "abcdef123456"}, {"v1.2.3-pre+incompatible", "A"}, {"", "0"}, {"v1.0.99999999999999999999", "z9"}} {
+		// revision sweep: every alphanumeric character alone, first and last in a revision
+		{
+			l := fw.NewLocal()
+			for _, c := range alnum {
+				ch := string(c)
+				for _, rev := range []string{ch, "x" + ch, ch + "x", "abcdef12345" + ch, ch + "bcdef123456"} {
+					for _, base := range []string{"", "v1.2.3", "v1.2.3-pre", "v2.0.0+incompatible", "v1.2.3-rc.0"} {
+						major := "v1"
+						if semverref.Parse(base).Valid {
+							major = semver.Major(base)
+						}
+						for _, t := range ts[:3] {
+							l.States++
+							l.Transitions++
+							l.Execs++
+							if _, msg := one(major, base, t, rev); msg != "" {
+								c := caseT{Major: major, Base: base, Time: t.Format(time.RFC3339Nano), Rev: rev}
+								r.Violation(fmt.Sprintf("one:%s|%s|%s|%s", major, base, c.Time, rev), msg, c)
+							}
+						}
+					}
+				}
+			}
+			r.Merge(l)
+		}
 		r.Sample(map[string]any{"base": s[0], "rev": s[1], "time": ts[13].Format(time.RFC3339Nano), "pseudo": module.PseudoVersion("", s[0], ts[13], s[1])})
 	}
 	// negative space: strings that must not be taken for pseudo-versions / must fail to parse
